@@ -66,6 +66,8 @@ class Prov:
             if 'int' in op:
                 return {('const', (op['ty']['s'], op['int']), ())}
             if 'promoted' in op:
+                if op.get('promoted_owner'):
+                    return {('promoted', (op['promoted_owner'], op['promoted']), ())}      # a constant of an expanded callee (inline.py)
                 return {('promoted', op['promoted'], ())}
             if 'uneval' in op:
                 return {('constitem', op['uneval']['id'], ())}
@@ -144,6 +146,9 @@ class Prov:
             l, pr = data
             return self._origins(l, pr, visiting)
         if kind == 'agg' and proj == () and e[0] == 'v':
+            rv = self.body.blocks[data[0]]['stmts'][data[1]]['rv']
+            if rv.get('ak') == 'adt' and rv.get('variant') is not None and isinstance(e[1], int) and rv['variant'] != e[1]:
+                return set()       # downcast to a variant this aggregate was not built as: unreachable read (`(x as Some).0` of a `None`)
             return {('agg', data, (e,))}
         if kind == 'agg' and e[0] == 'f' and (proj == () or (len(proj) == 1 and proj[0][0] == 'v')):
             bi, si = data
